@@ -52,7 +52,8 @@ type Case struct {
 
 const (
 	allocLimit   = 64 << 20
-	maxInputSize = 4096
+	maxInputSize = 4096    // encodings up to this size get the full enumeration (every prefix, ...)
+	bigInputSize = 4 << 20 // larger encodings (payloads on the 2^14 / 2^21 length boundaries) get a sampled one
 )
 
 func fail(class, oracle, observed, expected string) *evid.Failure {
@@ -178,8 +179,15 @@ func pickNodes(all []*pgen.Node, n int, r *prng) []*pgen.Node {
 // derive enumerates the family of inputs of one valid encoding.
 func derive(sd *pgen.TypeDesc, base []byte, seed uint64) (list []Derived, note string) {
 	r := &prng{s: seed}
+	// big: the encoding is too long for the full enumeration; prefixes,
+	// mutated fields and insertion points are then sampled
+	big := len(base) > maxInputSize-64
+	limit, nMut, nIns, nFlip := maxInputSize, 24, 40, 8
+	if big {
+		limit, nMut, nIns, nFlip = bigInputSize+64, 6, 8, 4
+	}
 	add := func(kind, label string, nontriv bool, data []byte, withBase bool) {
-		if len(data) > maxInputSize {
+		if len(data) > limit {
 			return
 		}
 		d := Derived{Kind: kind, Input: data, label: label, nontrivial: nontriv}
@@ -202,8 +210,30 @@ func derive(sd *pgen.TypeDesc, base []byte, seed uint64) (list []Derived, note s
 			note = "base-not-parseable"
 		}
 	}
-	// (1) every prefix
+	// (1) every prefix (big encodings: the first and last 48, the bytes around
+	// every field start / payload start, 32 more spread over the rest)
+	cuts := map[int]bool{}
+	if big {
+		for l := 0; l < 48; l++ {
+			cuts[l], cuts[len(base)-1-l] = true, true
+		}
+		if parsed {
+			pgen.Visit(nodes, func(n *pgen.Node, _ int) {
+				if len(cuts) < 400 {
+					for d := -1; d <= 1; d++ {
+						cuts[n.Start+d], cuts[n.PayStart+d] = true, true
+					}
+				}
+			})
+		}
+		for k := 1; k <= 32; k++ {
+			cuts[len(base)/33*k] = true
+		}
+	}
 	for l := 0; l < len(base); l++ {
+		if big && !cuts[l] {
+			continue
+		}
 		lab, boundary := "top-level-value", l == 0
 		if parsed {
 			lab, boundary = pgen.LabelAt(nodes, l)
@@ -215,7 +245,7 @@ func derive(sd *pgen.TypeDesc, base []byte, seed uint64) (list []Derived, note s
 	if parsed {
 		var all []*pgen.Node
 		pgen.Visit(nodes, func(n *pgen.Node, _ int) { all = append(all, n) })
-		for _, nd := range pickNodes(all, 24, r) {
+		for _, nd := range pickNodes(all, nMut, r) {
 			lab := nd.Label
 			if nd.Wire == 2 {
 				l := uint64(nd.End - nd.PayStart)
@@ -274,7 +304,7 @@ func derive(sd *pgen.TypeDesc, base []byte, seed uint64) (list []Derived, note s
 		}
 	}
 	if len(base) > 0 {
-		for i := 0; i < 8; i++ {
+		for i := 0; i < nFlip; i++ {
 			b := append([]byte(nil), base...)
 			b[r.intn(len(b))] ^= 1 << uint(r.intn(8))
 			add("flip", "bit", false, b, false)
@@ -290,12 +320,12 @@ func derive(sd *pgen.TypeDesc, base []byte, seed uint64) (list []Derived, note s
 	// (4) unknown-field insertion at every field boundary
 	if parsed {
 		bs := pgen.Boundaries(nodes, len(base))
-		if len(bs) > 40 {
-			for i := 0; i < 40; i++ {
+		if len(bs) > nIns {
+			for i := 0; i < nIns; i++ {
 				j := i + r.intn(len(bs)-i)
 				bs[i], bs[j] = bs[j], bs[i]
 			}
-			bs = bs[:40]
+			bs = bs[:nIns]
 		}
 		for _, bd := range bs {
 			d := pgen.DescAt(sd, nodes, bd.Path)
@@ -519,7 +549,7 @@ func checkCase(c Case) (f *evid.Failure, st stats) {
 			st.note = "marshal-failed" // C03's business; no valid encoding to derive from
 			return nil, st
 		}
-		if len(base) > maxInputSize-64 {
+		if len(base) > bigInputSize {
 			st.note = "oversize"
 			return nil, st
 		}
@@ -551,9 +581,14 @@ func checkCase(c Case) (f *evid.Failure, st stats) {
 				if d > worst {
 					worst = d
 				}
-				if f == nil && d > allocLimit {
-					f = fail("alloc", fmt.Sprintf("allocation for an input of %d bytes stays within 64 MiB [%s input=%s]", len(in.Input), in.Kind, hexTrunc(in.Input)),
-						fmt.Sprintf("%d bytes allocated", d), "<= 67108864")
+				// flat 64 MiB for inputs of at most 4 KiB, plus 64 x the length beyond
+				lim := uint64(allocLimit)
+				if len(in.Input) > maxInputSize {
+					lim += 64 * uint64(len(in.Input))
+				}
+				if f == nil && d > lim {
+					f = fail("alloc", fmt.Sprintf("allocation for an input of %d bytes stays within 64 MiB (+ 64 x length beyond 4 KiB) [%s input=%s]", len(in.Input), in.Kind, hexTrunc(in.Input)),
+						fmt.Sprintf("%d bytes allocated", d), fmt.Sprintf("<= %d", lim))
 				}
 			}
 			if f != nil {
@@ -744,6 +779,7 @@ func run(t fataler, test string, c Case, account bool) {
 func genOpts() *pgen.Opts {
 	o := pgen.OptsFor(evid.KnownActive, evid.Excluded)
 	o.Small = true
+	o.Huge = evid.Thorough()
 	o.MaxDepth = 2
 	if o.MaxRep == 10 {
 		// one mutated tag can add an element to a repeated field: stay one
